@@ -1038,8 +1038,8 @@ def theorem_scope(op):
         if name == "rename" and len(ps[0]) < len(ps[1]) and ps[1][:len(ps[0])] == ps[0]:
             return "refuted:D42-region"
         return "proved:C04_refine_step"
-    if name == "flatten" and op["inplace"]:
-        return "refuted:D24-region"
+    if name == "flatten":
+        return "refuted:D24-region" if op["inplace"] else "proved:C04_refine_step"
     if name in ("select", "exclude", "split") and prefix_related(ps):
         return "outside:prefix-related-keys"
     if name == "select" and not op["strict"]:
@@ -1412,9 +1412,21 @@ def replay(body):
     print("implementation, step by step:")
     for st in res["steps"]:
         print("  op:", json.dumps(st["op"]), "->", st.get("outcome"), st.get("exc"), " state:", json.dumps(st["state"]))
-    print("oracle failures on replay:")
+    from .core import load_findings
+    known = [f for f in load_findings() if f.get("property") == PID and f.get("kind") == "known"]
+    print("oracle failures on replay (new ones first):")
+    rows = []
     for (label, c, detail, sig) in res["fails"]:
-        print("  ", label, json.dumps(c.get("observation")), json.dumps(detail, default=str)[:600], json.dumps(sig))
+        hit = next((f["id"] for f in known if f.get("signature") and all(sig.get(k) == v for k, v in f["signature"].items())), None)
+        rows.append((hit is not None, f"   step {c.get('failing_step')}: {label} {'[known ' + hit + ']' if hit else '[NEW]'} "
+                     f"{json.dumps(c.get('observation'))} {json.dumps(detail, default=str)[:600]} {json.dumps(sig)}"))
+    seen = set()
+    for _, line in sorted(rows, key=lambda r: r[0]):
+        k = line.split("{")[0]
+        if k in seen and "[known" in line:
+            continue
+        seen.add(k)
+        print(line)
     try:
         line = history_line(dict(res["case"], flags0=res["steps"][0]["flags"], probes0=res["steps"][0]["probes"]))
         m = _run_model(PID, [line])[0]
